@@ -119,9 +119,16 @@ func (cl *CheckpointList) RetainOnly(ids []uint64) {
 	cl.mu.Lock()
 	defer cl.mu.Unlock()
 	idsSet := ds.SetOf(ids...)
+	// The update names the checkpoints that were complete when it was sent. A
+	// checkpoint that was started since then is newer than all of them and must
+	// survive: it may be the next one to complete.
+	var newestRetained uint64
+	for _, id := range ids {
+		newestRetained = max(newestRetained, id)
+	}
 	nextCheckpoints := make([]*Checkpoint, 0, len(ids))
 	for _, cp := range cl.checkpoints {
-		if idsSet.Has(cp.ID) {
+		if idsSet.Has(cp.ID) || cp.ID > newestRetained {
 			nextCheckpoints = append(nextCheckpoints, cp)
 		} else {
 			cl.checkpointsPendingRemoval = append(cl.checkpointsPendingRemoval, cp)
